@@ -2,7 +2,7 @@
 import os, sys, json, subprocess, importlib
 VERIF = os.path.dirname(os.path.dirname(os.path.abspath(__file__)))
 
-E1 = {"C17": "c17", "C13": "c13", "C18": "c18", "C10": "c10", "C11": "c11", "C12": "c12", "C01": "c01", "C02": "c02", "C15": "c15", "C19": "c19", "C03": "c03", "C04": "c04", "C14": "c14", "C05": "c05", "C06": "c06", "C07": "c07", "C09E1": "c09e1"}
+E1 = {"C16": "c16", "C17": "c17", "C13": "c13", "C18": "c18", "C10": "c10", "C11": "c11", "C12": "c12", "C01": "c01", "C02": "c02", "C15": "c15", "C19": "c19", "C03": "c03", "C04": "c04", "C14": "c14", "C05": "c05", "C06": "c06", "C07": "c07", "C09E1": "c09e1"}
 
 
 def write_evidence(pid, ev):
